@@ -140,8 +140,13 @@ theorem ntinv_after_initPush (H : OHyp E rank Good) {s1 s3 : St U π} {nt : UNT 
     rw [hheap]
     exact ((Heapq.foldl_push_perm (ltE E.ops) items []).map (·.2)).symm.subset (by simpa using hp')
   · intro F args v hp'
-    obtain ⟨k, hk⟩ := hp'
-    rw [hsucc] at hk; cases hk
+    exfalso
+    apply hp'.2
+    have hs := hp'.1
+    rw [hseen] at hs
+    unfold St.heapProgs
+    rw [hheap]
+    exact ((Heapq.foldl_push_perm (ltE E.ops) items []).map (·.2)).symm.subset (by simpa using hs)
 
 /-- one alternative of phase 1 -/
 theorem alt_step (H : OHyp E rank Good) {s s1 s3 : St U π} {nt : UNT U} {P : Sym} {v : List (UNT U)} {w : Rat}
